@@ -23,16 +23,42 @@ Proof.
   all: smalls; go; fin.
 Qed.
 
+(* the two shapes of an integer type: [0, max] or [-max-1, max] *)
+Lemma ity_shape t : WT t ->
+  (sgn t = false /\ imin t = 0 /\ 0 < imax t) \/ (sgn t = true /\ imin t = - imax t - 1 /\ 0 < imax t).
+Proof. intros HT. types t HT; [right|left|right|left|right|left|right|left]; vm_compute; auto. Qed.
+
+(* x / y is a value of the type unless it is min / -1 *)
+Lemma quot_in_range t x y : WT t -> in_ty t x = true -> in_ty t y = true -> y <> 0 ->
+  ~ (sgn t = true /\ x = imin t /\ y = -1) -> in_ty t (x ÷ y) = true.
+Proof.
+  intros HT Hx Hy Hy0 Hn. apply in_ty_range in Hx. apply in_ty_range in Hy. apply in_ty_range.
+  pose proof (quot_cases x y Hy0) as Hq. set (q := x ÷ y) in *. clearbody q.
+  destruct (ity_shape t HT) as [(S & L & H)|(S & L & H)]; rewrite L in *; set (hi := imax t) in *; clearbody hi.
+  - lia.
+  - assert (~ (x = - hi - 1 /\ y = -1)) by (intros [? ?]; apply Hn; auto). lia.
+Qed.
+
+Lemma sat_id t v : in_ty t v = true -> sat t v = v.
+Proof. intros H. apply in_ty_range in H. unfold sat, clamp. destruct (Z.ltb_spec v (imin t)), (Z.ltb_spec (imax t) v); lia. Qed.
+
 Lemma div_sat_ok t : WT t -> forall x y, in_ty t x = true -> in_ty t y = true -> y <> 0 ->
   div_sat_m t x y = Ok (div_sat_spec t x y).
 Proof.
-  intros HT x y Hx Hy Hy0.
-  pose proof (quot_cases x y Hy0) as Hq.
-  unfold div_sat_m, div_sat_spec.
-  set (q := x ÷ y) in *. clearbody q.
-  types t HT; range Hx; range Hy;
-    unfold sat, clamp, arith; widths; consts2;
-    (destruct (Z.eqb_spec y 0) as [?|_]; [contradiction|]); go; fin.
+  intros HT x y Hx Hy Hy0. unfold div_sat_m, div_sat_spec.
+  destruct (Z.eqb_spec y 0) as [?|_]; [contradiction|].
+  rewrite tmin_imin, tmax_imax.
+  destruct (sgn t && (x =? imin t) && (y =? -1)) eqn:E.
+  - (* min / -1 saturates *)
+    apply andb_true_iff in E. destruct E as [E Ey]. apply andb_true_iff in E. destruct E as [Es Ex].
+    apply Z.eqb_eq in Ex, Ey. subst x y. f_equal.
+    change (-1) with (- (1)). rewrite Z.quot_opp_r, Z.quot_1_r by lia.
+    destruct (ity_shape t HT) as [(S & L & H)|(S & L & H)]; [congruence|].
+    unfold sat, clamp. rewrite L. set (hi := imax t) in *.
+    destruct (Z.ltb_spec (- (- hi - 1)) (- hi - 1)), (Z.ltb_spec hi (- (- hi - 1))); lia.
+  - assert (Hq : in_ty t (x ÷ y) = true).
+    { apply quot_in_range; auto. intros (S & X & Y). rewrite S, X, Y, !Z.eqb_refl in E. discriminate. }
+    rewrite arith_ok by assumption. cbn [rbind]. rewrite cast_id, sat_id by assumption. reflexivity.
 Qed.
 
 (* the precondition y != 0 is checked *)
